@@ -12,6 +12,12 @@ package main
 //	handleInputCh, cap reached   : (nothing)         then loop top: C
 //	handleTimerFired (+ reset)   : Stop(false) c     (no loop-top C: hasTimer is false)
 //
+// The clock's methods are callbacks executed by the run loop, which makes them deterministic
+// scheduling seams: a GATE holds the run loop inside NewTimer/Stop (it is then verifiably alive,
+// inside handleInputCh) while other calls are issued; a HOOK moves the clock inside the next
+// NewTimer/Stop call, i.e. exactly between "the run loop took the token / the expiry" and the
+// effect of its clock call. A timer armed with a non-positive duration expires at once.
+//
 // Two timer contracts are implemented: Go 1.23 (Stop on an expired but unreceived timer returns
 // true and discards the value) and the legacy / k8s FakeClock one (Stop returns false after the
 // expiry, the value stays in the 1-slot buffer and the caller drains it).
